@@ -234,7 +234,7 @@ fn convert(t: OwnedTerm, chain: &[u8], dirt: &Dirt) -> OwnedTerm {
 }
 
 pub fn run(ctx: &Ctx) {
-    ctx.rule("cases = identifier (pid/port/ref; node names 1..255 bytes, 32/64-bit numbers, 1..5 words) x form (modern plain / LOCAL_EXT with random 8-byte hash and any admissible inner tag) x 9 term contexts x conversion chain of length 0..6 over {clone, to-borrowed-and-back, move, box, clone_from over a slot that held another identifier (directly and through Vec/Option/Box)}; re-encoded plainly and behind a distribution header (single term, and next to a control tuple); plus every ordered pair of sibling identifiers (one field or one trailing reference word apart) in all four form combinations as the two keys of one map; distinct = distinct (kind, form, context, chain) combinations");
+    ctx.rule("cases = identifier (pid/port/ref; node names 1..255 bytes, 32/64-bit numbers, 1..5 words) x form (modern plain / LOCAL_EXT with random 8-byte hash and any admissible inner tag) x 9 term contexts x conversion chain of length 0..6 over {clone, to-borrowed-and-back, move, box, clone_from over a slot that held another identifier (directly and through Vec/Option/Box)}; decoded by the owned and (where it accepts) the zero-copy decoder, re-encoded plainly and behind a distribution header (single term, and next to a control tuple); plus every ordered pair of sibling identifiers (one field or one trailing reference word apart) in all four form combinations as the two keys of one map; distinct = distinct (kind, form, context, chain) combinations");
     ctx.assume("LOCAL_EXT layout = tag, 8 hash bytes, one tag-led term (the library's documented reading)");
     let mut rng = Rng::derive(ctx.seed, 10, 1);
     let cfg = GenCfg::default();
@@ -374,6 +374,26 @@ pub fn run(ctx: &Ctx) {
             }
             Ok(Err(e)) => ctx.viol("C10:encode-error", "re-encoding failed", wit(json!({"error": e.to_string()}))),
             Err(p) => ctx.viol("C10:panic:encode", "panic", wit(json!({"panic": p}))),
+        }
+        // through the zero-copy decoder: it may refuse node-local identifiers altogether, but whatever it accepts must
+        // come back as the bytes that arrived (after to_owned, and after the same conversion chain)
+        {
+            ctx.eval(1);
+            match guarded(|| erltf::decode_borrowed(&bytes).map(|b| b.to_owned())) {
+                Ok(Ok(owned)) => {
+                    let again = guarded(|| erltf::encode(&convert(owned, &chain, &dirt)));
+                    if !matches!(&again, Ok(Ok(a)) if a == &bytes) {
+                        ctx.viol(
+                            &format!("C10:bytes-differ:{}:{:?}:through-the-zero-copy-decoder", ["pid", "port", "ref"][kind], form),
+                            "an identifier accepted by the zero-copy decoder is not re-emitted byte-for-byte",
+                            wit(json!({"again": format!("{:?}", again.map(|r| r.map(|a| hex_cap(&a, 160)).map_err(|e| e.to_string())))})),
+                        );
+                    }
+                    ctx.count("accepted_by_the_zero_copy_decoder", 1);
+                }
+                Ok(Err(_)) => ctx.count("refused_by_the_zero_copy_decoder", 1),
+                Err(p) => ctx.viol("C10:panic:decode_borrowed", "panic", wit(json!({"panic": p}))),
+            }
         }
         // the same behind a distribution header (what a connection with a negotiated atom cache sends): a node-local
         // identifier is opaque and goes out byte for byte; an ordinary one comes back equal and re-encodes to the
